@@ -262,7 +262,7 @@ def classify(case, msg):
     return None
 
 
-OPTIONS = gencc.Options(max_funcs=3, max_stmts=6, effects=12, many_params=20)
+OPTIONS = gencc.Options(max_funcs=3, max_stmts=6, effects=14, many_params=20, bare_literals=8)
 
 
 @st.composite
